@@ -34,7 +34,7 @@ MANIFEST = dict(
          'Python Serializer/Deserializer (see design_notes/C14.md).',
     design='§5 C14')
 
-C_VARIANTS = [('any', False), ('any', True), ('little', False), ('little', True), ('big', False), ('big', True)]
+C_VARIANTS = [('any', False), ('any', True), ('little', False), ('little', True), ('big', False), ('big', True)]   # big: thorough tier only
 M64 = (1 << 64) - 1
 
 
@@ -111,6 +111,49 @@ def oracle(line: str) -> typing.Optional[str]:
     if c in ('gf32', 'gf64'):
         buf, size, off = unhex(t[1]), int(t[2]), int(t[3])
         return None if size > len(buf) else str(field(buf, size, off, int(c[2:])))
+    if c == 'xz':
+        buf, size, off, ln = unhex(t[1]), int(t[2]), int(t[3]), int(t[4])
+        if size > len(buf):
+            return None
+        return ('-3 ' + hx(buf)) if ln > max(0, 8 * size - off) else ('0 ' + hx(put_bits(buf, off, ln, 0)))
+    if c == 'xpad':
+        buf, size, off, n = unhex(t[1]), int(t[2]), int(t[3]), int(t[4])
+        if size > len(buf) or not 1 <= n <= 255:
+            return None
+        pad = (n - off % n) % n
+        if pad > max(0, 8 * size - off):
+            return '-3 %d %s' % (off, hx(buf))
+        return '0 %d %s' % (off + pad, hx(put_bits(buf, off, pad, 0)))
+    if c == 'xcp':
+        dst, dsize, doff, ln, src, ssize, soff = unhex(t[1]), int(t[2]), int(t[3]), int(t[4]), unhex(t[5]), int(t[6]), int(t[7])
+        n = min(ln, max(0, 8 * ssize - soff))
+        if dsize > len(dst) or ssize > len(src) or doff + n > 8 * dsize:
+            return None
+        return hx(put_bits(dst, doff, n, field(src, ssize, soff, n)))
+    if c in ('xsub', 'xsubb', 'xsub2'):
+        nalloc, size, off = int(t[1]), int(t[2]), int(t[3])
+        bits = int(t[4]) if c != 'xsubb' else 0
+        k, o = (off + bits) // 8, (off + bits) % 8
+        if k > nalloc or size > nalloc:
+            return None
+        if c == 'xsub':
+            ns = size - k if k < size else 0
+        elif c == 'xsubb':
+            ns = min(int(t[4]), size - k if k < size else 0)
+        else:
+            if k > size or o + int(t[5]) > 8 * (size - k):
+                return '-3'
+            ns = (o + int(t[5])) // 8
+        return '%d %d %d' % (k, max(0, 8 * ns - o), o)
+    if c == 'xbits':
+        size, off = int(t[1]), int(t[2])
+        return None if size * 8 > M64 else str(max(0, size * 8 - off))
+    if c == 'xceil':
+        off = int(t[2])
+        return None if off + 7 > M64 else str((off + 7) // 8)
+    if c == 'xalign':
+        off, n = int(t[1]), int(t[2])
+        return None if off + n > M64 else str((off + n - 1) // n * n)
     if c == 'f16p':
         return Pred(lambda got, x=int(t[1]): judge_f16_pack(x, got), lambda x=int(t[1]): describe_f16_pack(x))
     if c == 'f16u':
@@ -256,6 +299,19 @@ def nontrivial(line: str) -> typing.Optional[str]:
         return 'gb-padded' if ln % 8 else None
     if c == 'sat':
         return 'sat'
+    if c == 'xz':
+        size, off, ln = int(t[2]), int(t[3]), int(t[4])
+        if ln > max(0, 8 * size - off):
+            return 'xz-too-small'
+        if ln == 0:
+            return None
+        return 'xz-crosses-byte-from-unaligned-offset' if (off % 8 and off % 8 + ln > 8) else 'xz-unaligned' if off % 8 else 'xz-unaligned-end' if ln % 8 else None
+    if c == 'xpad':
+        return 'xpad-pads' if int(t[3]) % int(t[4]) else None
+    if c == 'xcp':
+        return 'xcp-clamped' if int(t[4]) > max(0, 8 * int(t[6]) - int(t[7])) else 'xcp'
+    if c in ('xsub', 'xsubb', 'xsub2', 'xbits', 'xceil', 'xalign'):
+        return c
     if c == 'f16p':
         y = int(t[1]) & 0x7FFFFFFF
         if y >= 0x7F800000:
@@ -371,6 +427,50 @@ def gen_c_cases(rng, tier: str) -> typing.List[str]:
     return L
 
 
+def gen_cpp_cases(rng, tier: str) -> typing.List[str]:
+    """commands that exist only on the C++ bitspan: setZeros, padAndMoveToAlignment, copyTo with explicit span sizes (clamp),
+    the three subspans, size(), offset_bytes_ceil(), align_offset_to"""
+    thorough = tier == 'thorough'
+    L = ['xz ffff 2 7 2', 'xz ffffff 3 7 2', 'xz ffffffff 4 15 10']          # first line: the witness of F-CPP-ZEROS (fixed in /repo)
+    n = 0
+    for size in range(13):
+        for off in list(range(24)) + [o for o in EXTRA_OFFS if o <= 8 * size + 9]:
+            for ln in range(81):
+                for kind in ((1, 2) if thorough else (1 + (n % 2),)):
+                    n += 1
+                    L.append('xz %s %d %d %d' % (hx(content(rng, kind, size + (n % 3))), size, off, ln))
+        for off in range(0, 8 * size + 12):
+            for nb in (8, 16, 32, 64):
+                L.append('xpad %s %d %d %d' % (hx(content(rng, 1 + (off + nb) % 2, size + off % 2)), size, off, nb))
+            L.append('xbits %d %d' % (size, off))
+            L.append('xceil %d %d' % (size, off))
+    for off in list(range(0, 200)) + [M64 - 70, M64 - 64, M64 - 63, M64 - 8, M64 - 7]:
+        for nb in (8, 16, 32, 64):
+            L.append('xalign %d %d' % (off, nb))
+    for a in (0, 1, 1 << 61, (1 << 61) + 1, M64 >> 3, M64):
+        for b in (0, 1, 7, 8, 9, M64 - 7, M64 - 6, M64):
+            L.append('xbits %d %d' % (a, b))
+            L.append('xceil %d %d' % (0, b))
+    for ssize in range(5):
+        for soff in range(8 * ssize + 10):
+            for ln in range(0, 41):
+                for doff in ((0, 3, 8, 13) if not thorough else range(16)):
+                    dsize = (doff + ln + 7) // 8 + (ln % 2)
+                    L.append('xcp %s %d %d %d %s %d %d' % (hx(content(rng, rng.randrange(3), dsize + ln % 3)), dsize, doff, ln,
+                                                          hx(content(rng, 2, ssize + soff % 2)), ssize, soff))
+    for size in range(7):
+        for pad in (0, 2):
+            nalloc = size + pad
+            for off in range(0, 8 * nalloc + 1):
+                for bits in range(0, 8 * nalloc - off + 1, 1 if thorough else 3):
+                    L.append('xsub %d %d %d %d' % (nalloc, size, off, bits))
+                    for sb in (0, 1, 7, 8, 9, 16, 24, 8 * size):
+                        L.append('xsub2 %d %d %d %d %d' % (nalloc, size, off, bits, sb))
+                for nb in range(0, size + 3):
+                    L.append('xsubb %d %d %d %d' % (nalloc, size, off, nb))
+    return L
+
+
 def gen_f16_cases(rng, tier: str) -> typing.List[str]:
     """all 65536 halves for unpack; pack on every binary32 exponent x a mantissa grid containing every rounding boundary
     (multiples of 4096 of the 23-bit mantissa: ties and truncation points) and its neighbours; sorted by magnitude per sign"""
@@ -420,6 +520,8 @@ def build_c_targets(scratch: str, tier: str) -> typing.Tuple[dict, typing.List[s
     clang = ['clang', '-std=c11', '-O1', '-g', '-fsanitize=address,undefined', '-fno-sanitize-recover=all', '-DEXACT_ALLOC',
              '-DNUNAVUT_ASSERT=assert']
     for e, a in C_VARIANTS:
+        if e == 'big' and tier == 'quick':
+            continue   # the `big` rendering differs from `any` only in a comment and the option hash
         name = 'c_%s_%s' % (e, 'asserts' if a else 'noasserts')
         args = ['--target-language', 'c', '--generate-support', 'only', '--target-endianness', e] + (['--enable-serialization-asserts'] if a else [])
         jobs.append((name, os.path.join(scratch, name), args, gcc, src))
@@ -432,6 +534,30 @@ def build_c_targets(scratch: str, tier: str) -> typing.Tuple[dict, typing.List[s
                 errors.append('%s: %s' % (name, log))
             else:
                 targets[name] = {'exe': exe, 'model': 'c-little' if '_little_' in name else 'c-any'}
+    return targets, errors
+
+
+def build_cpp_targets(scratch: str, tier: str) -> typing.Tuple[dict, typing.List[str]]:
+    jobs = []
+    src = os.path.join(HARNESS, 'c14_cpp_drv.cpp')
+    stds = ['c++14'] + (['c++17', 'c++20'] if tier == 'thorough' else [])
+    for std in stds:
+        for a in (False, True):
+            name = 'cpp_%s_%s' % (std.replace('+', 'p'), 'asserts' if a else 'noasserts')
+            args = ['--target-language', 'cpp', '--experimental-languages', '--generate-support', 'only', '--language-standard', std] + \
+                   (['--enable-serialization-asserts'] if a else [])
+            gxx = ['g++', '-std=' + std, '-O1', '-Wall', '-Wextra', '-pedantic', '-DNUNAVUT_ASSERT=assert']
+            jobs.append((name, os.path.join(scratch, name), args, gxx, src))
+            if std == 'c++14' and not a:
+                clang = ['clang++', '-std=c++14', '-O1', '-g', '-fsanitize=address,undefined', '-fno-sanitize-recover=all', '-DEXACT_ALLOC']
+                jobs.append((name + '_asan', os.path.join(scratch, name + '_asan'), args, clang, src))
+    targets, errors = {}, []
+    with concurrent.futures.ThreadPoolExecutor(max_workers=6) as ex:
+        for name, exe, log in ex.map(_render_and_build, jobs):
+            if exe is None:
+                errors.append('%s: %s' % (name, log))
+            else:
+                targets[name] = {'exe': exe, 'model': 'cpp'}
     return targets, errors
 
 
@@ -530,8 +656,12 @@ def main(chk: core.Check, replay: typing.Optional[str] = None) -> int:
     scratch = core.scratch('c14-')
     broken: typing.List[str] = []
 
+    import time
+    t0 = time.time()
+    timing = {}
     # 1. proof obligations
     res = core.coq_check('C14', [])
+    timing['coq_s'] = round(time.time() - t0, 1)
     chk.proof_coverage(res, [
         'hand models coq/theories/Prims/CPrims.v of the rendered C support header (function by function), tied by the correspondence run',
         'platform assumptions written into the model: LP64, little-endian host, 8-bit bytes, unsigned int = 32 bits, conversion to a '
@@ -547,23 +677,34 @@ def main(chk: core.Check, replay: typing.Optional[str] = None) -> int:
     if not ok_model:
         broken.append('model does not build/extract: ' + log[-400:])
     targets, errors = build_c_targets(scratch, chk.tier)
-    for e in errors:
+    cpp_targets, cpp_errors = build_cpp_targets(scratch, chk.tier)
+    for e in errors + cpp_errors:
         broken.append('implementation build: ' + e[:600])
 
+    timing['builds_s'] = round(time.time() - t0 - timing['coq_s'], 1)
+    t1 = time.time()
     # 3. cases
     if replay:
         doc = json.load(open(replay))
-        lines = [doc['line']] if doc.get('line') else gen_c_cases(chk.rng, chk.tier) + gen_f16_cases(chk.rng, chk.tier)
+        lines = [doc['line']] if doc.get('line') else gen_c_cases(chk.rng, chk.tier) + gen_cpp_cases(chk.rng, chk.tier) + gen_f16_cases(chk.rng, chk.tier)
     else:
-        lines = gen_c_cases(chk.rng, chk.tier) + gen_f16_cases(chk.rng, chk.tier)
+        lines = gen_c_cases(chk.rng, chk.tier) + gen_cpp_cases(chk.rng, chk.tier) + gen_f16_cases(chk.rng, chk.tier)
     chunk = 20000
     tie_target = 'c_any_noasserts' if 'c_any_noasserts' in targets else None
     mexe = model_exe if ok_model else None
     # float16 lines do not depend on the endianness rendering: one model run; the big pack grid goes to two builds only
-    grid_targets = {k: v for k, v in targets.items() if k in ('c_any_noasserts', 'c_little_asserts_asan')} or targets
+    all_targets = dict(targets, **cpp_targets)
+    grid_targets = {k: v for k, v in all_targets.items() if k in ('c_any_noasserts', 'c_little_asserts_asan', 'cpp_cpp14_noasserts')} or all_targets
+    cpp_noassert = {k: v for k, v in cpp_targets.items() if 'noasserts' in k}
+    is_x = lambda l: l[0] == 'x'
+    is_xsub = lambda l: l.startswith('xsub')
     jobs = []
-    for fam_targets, fam_lines, mfa in ((targets, [l for l in lines if not l.startswith('f16p ')], None),
+    for fam_targets, fam_lines, mfa in ((all_targets, [l for l in lines if not l.startswith('f16p ') and not is_x(l)], None),
+                                        (cpp_targets, [l for l in lines if is_x(l) and not is_xsub(l)], None),
+                                        (cpp_noassert, [l for l in lines if is_xsub(l)], None),
                                         (grid_targets, [l for l in lines if l.startswith('f16p ')], 'c-any')):
+        if not fam_targets:
+            continue
         jobs += [{'lines': fam_lines[i:i + chunk], 'targets': fam_targets, 'model_exe': mexe, 'tie_stats_target': tie_target, 'model_for_all': mfa}
                  for i in range(0, len(fam_lines), chunk)]
     results = []
@@ -571,6 +712,8 @@ def main(chk: core.Check, replay: typing.Optional[str] = None) -> int:
         for r in ex.map(run_shard, jobs):
             results.append(r)
 
+    timing['run_s'] = round(time.time() - t1, 1)
+    chk.notes.append('timing: %r' % timing)
     oracle_bad = [b for r in results for b in r['oracle_bad']]
     model_bad = [b for r in results for b in r['model_bad']]
     crashes = [b for r in results for b in r['crash']]
@@ -601,7 +744,7 @@ def main(chk: core.Check, replay: typing.Optional[str] = None) -> int:
                 'masked tail byte, too-small error, clamp, zero extension, unaligned access)',
         'samples': [lines[i] for i in range(0, len(lines), max(1, len(lines) // 25))][:30],
         'traces_validated_against_impl': sum(r['compared_model'] for r in results),
-        'distribution': {'calls': len(lines), 'by_command': kinds, 'by_branch': branches, 'implementation_builds': sorted(targets),
+        'distribution': {'calls': len(lines), 'by_command': kinds, 'by_branch': branches, 'implementation_builds': sorted(all_targets),
                          'copy_strata_src_mod8_dst_mod8_len_mod8': '%d of 512' % len(strata),
                          'float16_pack_C_vs_struct_e': f16_vs_struct,
                          'float16_rounding_rules': 'C/C++ nunavutFloat16Pack: nearest, ties away from zero (proved: f16_rounding_rule); '
